@@ -35,7 +35,64 @@ type C04Plan struct {
 	Delivery simio.Delivery `json:"delivery"`
 }
 
+// genC04Fit builds files whose LAST physical line (a header of a letter-less
+// record, a single long sequence line, a quality line) ends exactly at, or a
+// byte or two before, a multiple of bufio's 4096-byte buffer, with and
+// without a final terminator: where a reader sees a full fragment followed by
+// nothing.
+func genC04Fit(r *simrt.RNG) *Case {
+	enc := phredEncodings[r.Intn(len(phredEncodings))]
+	sp := C01Plan{Alpha: "dna", Enc: int(enc), Width: 1 << 30}
+	L := 4096*r.Range(1, 3) - r.Pick(0, 0, 0, 1, 1, 2, 3)
+	if r.Intn(3) == 0 {
+		sp.Recs = append(sp.Recs, SeqRec{Name: "first", Letters: genLetters(r, "dna", r.Intn(50))})
+	}
+	if r.Bool() {
+		sp.Format = "fasta"
+		if r.Intn(3) == 0 {
+			// letter-less record whose header line is L bytes long
+			name := strings.Repeat("n", L-1)
+			desc := ""
+			if r.Bool() && L > 20 {
+				k := r.Range(1, L-3)
+				name, desc = strings.Repeat("n", k), strings.Repeat("d", L-2-k)
+			}
+			sp.Recs = append(sp.Recs, SeqRec{Name: name, Desc: desc})
+		} else {
+			sp.Recs = append(sp.Recs, SeqRec{Name: "last", Letters: genLetters(r, "dna", L)})
+		}
+	} else {
+		sp.Format = "fastq"
+		sp.Qual = true
+		sp.QID = r.Intn(4) == 0
+		rec := SeqRec{Name: "last", Letters: genLetters(r, "dna", L), Quals: make([]int, L)}
+		lo, hi := qRange(enc)
+		for i := range rec.Quals {
+			rec.Quals[i] = lo + (i*7)%(hi-lo+1)
+		}
+		sp.Recs = append(sp.Recs, rec)
+	}
+	for i := range sp.Recs {
+		if sp.Qual && sp.Recs[i].Quals == nil {
+			sp.Recs[i].Quals = make([]int, len(sp.Recs[i].Letters))
+			lo, _ := qRange(enc)
+			for j := range sp.Recs[i].Quals {
+				sp.Recs[i].Quals[j] = lo + 5
+			}
+		}
+	}
+	pl := C04Plan{Seq: &sp, Delivery: simio.PickDelivery(r)}
+	pl.Layout = Layout{Seed: r.Uint64(), CRLF: r.Intn(3) == 0, NoFinalNewline: r.Intn(3) != 0}
+	if r.Intn(3) == 0 {
+		pl.Layout.TrailRate = 1
+	}
+	return &Case{Prop: "C04", Kind: sp.Format, Plan: marshalPlan(pl)}
+}
+
 func genC04(r *simrt.RNG) *Case {
+	if r.Intn(15) == 0 {
+		return genC04Fit(r)
+	}
 	var pl C04Plan
 	kind := ""
 	if r.Intn(5) < 3 {
@@ -174,6 +231,7 @@ func runC04(t *testing.T, c *Case, o RunOpts) *Result {
 	site := "c04-" + c.Kind
 	if pl.Seq != nil {
 		sp := pl.Seq
+		sp.expand()
 		var text []byte
 		var v *simrt.Violation
 		if pv := guard(func() { text, _, v = writeSeqs(sp) }); pv != nil || v != nil {
@@ -334,6 +392,14 @@ func init() {
 	register(&Property{
 		ID: "C04",
 		Explore: func(t *testing.T, w *Worker, r *simrt.RNG) {
+			if w.unit == 0 {
+				// once per check: a 17 MiB FASTA record written at width 60 and
+				// re-wrapped onto a single physical line
+				sp := C01Plan{Format: "fasta", Alpha: "dna", Width: 60,
+					Recs: []SeqRec{{Name: "huge", GenN: 17<<20 + 1}, {Name: "z", Letters: "acgt"}}}
+				h := &Case{Prop: "C04", Kind: "fasta", Plan: marshalPlan(C04Plan{Seq: &sp, Layout: Layout{Rewrap: 1 << 30}, Delivery: simio.NoFault("block", 3)})}
+				w.Report(h, runC04(t, h, RunOpts{}))
+			}
 			c := genC04(r)
 			w.Report(c, runC04(t, c, RunOpts{}))
 		},
